@@ -268,6 +268,35 @@ class SBytes:
     def lower(self):
         return self.translate(bytes(range(256)).lower())
 
+    def split(self, sep=None, maxsplit=-1):
+        if sep is None:
+            raise Unsupported("whitespace split of symbolic bytes")
+        sep = bytes(sep)
+        if len(sep) != 1:
+            raise Unsupported("multi-byte separator")
+        parts, cur, n = [], [], 0
+        for x in self.b:
+            if (maxsplit < 0 or n < maxsplit) and sym.elem_in(x if isinstance(x, int) else SInt(x, 8), [sep[0]]):
+                parts.append(_norm(SBytes._norm_list(cur)))
+                cur = []
+                n += 1
+            else:
+                cur.append(x)
+        parts.append(_norm(SBytes._norm_list(cur)))
+        return parts
+
+    def splitlines_keepends(self):
+        """model of iterating io.BytesIO(data): lines end after each b'\\n'"""
+        out, cur = [], []
+        for x in self.b:
+            cur.append(x)
+            if sym.elem_in(x if isinstance(x, int) else SInt(x, 8), [10]):
+                out.append(SBytes._norm_list(cur))
+                cur = []
+        if cur:
+            out.append(SBytes._norm_list(cur))
+        return out
+
     def __lt__(self, o):
         raise Unsupported("ordering of symbolic bytes")
 
